@@ -1299,4 +1299,7 @@ func c20_runC20(e *Env) {
 		c20Mutations(e, r, p, id, 6)
 	}
 	c20Soup(e, rng.Fork(), nSoup)
+	// parser-level newline invariance on expression trees x layouts (c20nl.go; its own fork of
+	// the run's generator, taken last, so the streams above are unchanged)
+	c20ParseNL(e, e.Rng.Fork())
 }
